@@ -229,6 +229,10 @@ func Gen(r *vk.Run, n int) error {
 	if want("pgsql") {
 		genPgsql(r, budget/7)
 	}
+	// --- pkg/stream receivers (modelled: Wire/Stream.v)
+	if want("stream") {
+		genStream(r, budget/7)
+	}
 	// --- ReplicateTx on real stores
 	if want("repl") {
 		return genRepl(r, budget/3)
